@@ -12,6 +12,11 @@ META = {
         "itable: scaled-down geometry (inode size 4..8 -> 8..32 bytes, 16 / 32-byte blocks; expand_inode_table has no size constant); the enlarged tables "
         "lie inside the device and do not overlap (that is movemap's / moveblk's job)",
         "mntedit / mntnames: 10 concrete -o request strings; the journalling mode of s_default_mount_opts is treated as a 2-bit field as the code does",
+"inoscan: the inode scan delivers one symbolic inode then the end; every block of the to-move bitmap has a list entry (moveblk's post-condition); "
+        "the block iterator presents one reference to the callback it is given",
+        "uninitbg: the callers cleared the feature bit in the superblock before the call, and with FLAG = gdt_csum metadata_csum is not set; "
+        "ext2fs_read_bitmaps and zero_empty_inodes (cut) are stubs that record the feature word and may fail; 3 groups, no meta_bg",
+        "zeroino: the scan stub delivers all 8 inodes in order (no checksum feature set while it runs: decided in uninitbg)",
         "jrelease / xlate / moveblk / movemap: bitmaps are one byte per block (bytemap.h); the block iterator, the allocator (first free block at or after "
         "the goal, wrapping), the bad-block list and the device are stubs; no flex_bg (tune2fs -I refuses it), no bigalloc",
     ],
@@ -21,12 +26,14 @@ META = {
         "(any sequence of accepted requests on any consistent file system) is NOT decided",
         "rewrite_metadata_checksums / rewrite_inodes / rewrite_one_inode / rewrite_directory (the traversal: which objects get a new checksum), "
         "update_xattr_entry_hashes, the checksum values themselves (C14), ext2fs_init_csum_seed, MMP and journal superblock checksums",
-        "enable_uninit_bg / disable_uninit_bg / zero_empty_inodes (group descriptor and bitmap rewrites), add_journal, remove_journal_device, "
+        "enable_uninit_bg; of disable_uninit_bg / zero_empty_inodes everything behind the stubs of uninitbg / zeroino (the real bitmap loader, the real "
+        "inode scan and its skipping of INODE_UNINIT groups / itable_unused tails under a checksum feature, the real inode writer); add_journal, remove_journal_device, "
         "handle_quota_options and lib/support quota code, orphan-file creation / truncation, ext2fs_mmp_init / mmp_clear",
         "main(): option parsing (getopt, parse_time, -c -C -e -g -i -m -r -u -L -M -E -U -T arithmetic), the order of the option handlers, the UUID change "
         "(-U) incl. fs_update_journal_user, the undo file set-up, the closefs path (exit(1) without ext2fs_close after a refusal is read off the source, "
         "not decided), update_mntopts / e2p_edit_mntopts, parse_extended_opts",
-        "inode_scan_and_fix (the inode walk of -I: EA block translation, ext2fs_block_iterate3 on real extent trees / indirect blocks), "
+        "inode_scan_and_fix beyond ONE inode per scan (inoscan): the real inode scan, ext2fs_block_iterate3 on real extent trees / indirect blocks, "
+        "ext2fs_write_inode; an xattr block in the to-move bitmap without a list entry (translate_block 0: the code skips the inode's block walk); "
         "ext2fs_calculate_summary_stats, resize_inode's sequencing and its error / undo paths, the real allocator ext2fs_new_block2, the real bitmap code",
         "request strings other than the 14 / 17 listed; lists that mix a refused and an accepted dependency rule; dir_index, orphan_file, mmp, casefold, "
         "encrypt, project, sparse_super, stable_inodes, verity, read-only requests of update_feature_set",
@@ -241,6 +248,26 @@ HARNESSES += [
          bound="3 groups x 16 blocks, 1 KiB blocks; every descriptor's flags / itable_unused / bitmap locations, in-use set, sparse_super, "
                "s_state, other ro_compat bits, failure of either callee: symbolic; FLAG = gdt_csum / metadata_csum per query"),
 ]
+def zi_uw(ng, ipg, isz):
+    ni = ng * ipg
+    return ["main.%d:%d" % (i, ni + 3) for i in range(6)] + \
+        ["ext2fs_mark_generic_bmap.0:%d" % (ni + 2), "ext2fs_unmark_generic_bmap.0:%d" % (ni + 2), "ext2fs_test_generic_bmap.0:%d" % (ni + 2),
+         "zero_empty_inodes.0:%d" % (ni + 2), "ext2fs_get_next_inode_full.0:%d" % (isz + 1), "ext2fs_get_next_inode_full.1:%d" % (ni + 1),
+         "ext2fs_write_inode_full.0:%d" % (isz + 1), "ext2fs_write_inode_full.1:%d" % (ni + 2)]
+
+ZI_STUBS = BM_STUBS + ["ext2fs_open_inode_scan", "ext2fs_close_inode_scan", "ext2fs_get_next_inode_full", "ext2fs_write_inode_full"]
+HARNESSES += [
+    dict(name="zeroino", src="zeroino.c",
+         funcs=["zero_empty_inodes"], stubs=ZI_STUBS,
+         configs=[{"NG": 2, "IPG": 4, "ISZ": 32, "_unwindset": zi_uw(2, 4, 32)}],
+         unwind=4, backends=["default", "kissat"],
+         bound="2 groups x 4 inodes of 32 bytes: every inode bitmap, every inode content, every single write fault"),
+    dict(name="zeroino_openfail", src="zeroino.c", defs=["OPEN_FAIL"],
+         funcs=["zero_empty_inodes"], stubs=ZI_STUBS,
+         configs=[{"NG": 2, "IPG": 4, "ISZ": 32, "_unwindset": zi_uw(2, 4, 32)}],
+         unwind=4, backends=["default", "kissat"],
+         bound="as zeroino, plus ext2fs_open_inode_scan failing"),
+]
 MANIFEST = {
     "level": "model_checking",
     "technique": "Bounded-exhaustive model checking (CBMC 6.11) of kernel slices of misc/tune2fs.c and lib/e2p/feature.c compiled from the real "
@@ -256,7 +283,10 @@ MANIFEST = {
             "of the on-disk format and of tune2fs(8). Repaired defects of the pinned tree these harnesses reported (fix: commits, known_findings.txt): tune2fs -O none bypassing "
             "clear_ok_features (demo_O_none.sh), get_move_bitmaps ignoring the end of the group / file system (demo_I_short_last_group.sh), "
             "ext2fs_is_block_in_group off by one, e2p_string2mntopt parsing MNTOPT_<n> at the wrong offset. Observed, not asserted: move_block never "
-            "resets meta_data (spurious ENOSPC refusal after a bitmap block moved).",
+            "resets meta_data (spurious ENOSPC refusal after a bitmap block moved). Open: zeroino_openfail -- zero_empty_inodes() hands an UNINITIALISED "
+            "ext2_inode_scan to ext2fs_close_inode_scan() (which reads scan->magic) when ext2fs_open_inode_scan() fails; candidate patch "
+            "harness/C11/candidate_fix_zero_empty_inodes.diff (scan = NULL). Seeded changes: m1 (inode_scan_and_fix early-out hoisted) is caught by inoscan, "
+            "m2 (disable_uninit_bg restores the feature bit too late) by uninitbg, m3 (dx count == limit) by dxlimit.",
 }
 MANIFEST["assumptions"] = META["assumptions"]
 MANIFEST["outside"] = META["outside"]
